@@ -161,7 +161,7 @@ def ensure_facts(kinds):
         for d in os.listdir(WORK):
             p = os.path.join(WORK, d)
             if os.path.isdir(p) and d != h and (d.startswith("tgt-") is False):
-                if time.time() - os.path.getmtime(p) > 60:
+                if time.time() - os.path.getmtime(p) > 7200:
                     shutil.rmtree(p, ignore_errors=True)
             elif os.path.isdir(p) and d.startswith("tgt-") and time.time() - os.path.getmtime(p) > 3600:
                 shutil.rmtree(p, ignore_errors=True)
